@@ -7,6 +7,7 @@ import (
 
 	"github.com/veraison/psatoken"
 
+	"verif/harness/extprof"
 	"verif/harness/model"
 	"verif/harness/mon"
 	"verif/harness/obs"
@@ -210,6 +211,51 @@ func runC13(c *mon.Ctx) {
 		c.Count("combined-fault-cases")
 		classOK(sig, a, false)
 	}
+	// (1c) an extension that relaxes the base profile through its getters (client id
+	// optional, instance id not in the profile): the generic validator must honour
+	// exactly what FilterError honours
+	for i := 0; i < c.N(4000, 100000); i++ {
+		a := g.Valid(2)
+		dropCID, dropInst, dropImpl := g.R.Intn(2) == 0, g.R.Intn(2) == 0, g.R.Intn(4) == 0
+		x, err := obs.Build(a)
+		if err != nil {
+			continue
+		}
+		lx := extprof.NewExtLaxClaims()
+		prof := lx.Profile
+		lx.P2Claims = *obs.P2Of(x)
+		lx.Profile, lx.CanonicalProfile = prof, extprof.ExtLaxName
+		if dropCID {
+			lx.ClientID = nil
+		}
+		if dropInst {
+			lx.InstID = nil
+		}
+		if dropImpl {
+			lx.ImplID = nil
+		}
+		sig := fmt.Sprintf("lax-extension|cid=%v|inst=%v|impl=%v", !dropCID, !dropInst, !dropImpl)
+		c.Sig(sig)
+		c.Eval()
+		c.Count("lax-extension-cases")
+		var verr error
+		if pn, pv, fr := mon.Guard(func() { verr = lx.Validate() }); pn {
+			c.Violation("C13/panic/"+mon.PanicKey(fr), "panic validating the relaxed extension", map[string]any{"panic": pv, "frame": fr, "sig": sig})
+			continue
+		}
+		_, e1 := lx.GetClientID()
+		_, e2 := lx.GetInstID()
+		if (psatoken.FilterError(nil, e1) == nil) != (e1 == nil || dropCID) || (psatoken.FilterError(nil, e2) == nil) != (e2 == nil || dropInst) {
+			c.Violation("C13/filter/extension-getter", "FilterError does not suppress the relaxed extension's getter errors", map[string]any{"sig": sig})
+			continue
+		}
+		switch {
+		case dropImpl && obs.ClassOf(verr) != model.MissingMandatory:
+			c.Violation("C13/extension/validate:missing-mandatory->"+obs.ClassOf(verr).String(), fmt.Sprintf("relaxed extension without implementation id: Validate gives %v", verr), map[string]any{"sig": sig})
+		case !dropImpl && verr != nil:
+			c.Violation("C13/extension/validate:ok->"+obs.ClassOf(verr).String(), fmt.Sprintf("a claims-set of an extension that makes the client id optional / drops the instance id from the profile (errors FilterError suppresses) fails the generic validation: %v", verr), map[string]any{"sig": sig})
+		}
+	}
 	// (2) setters
 	type setCase struct {
 		name string
@@ -340,6 +386,7 @@ func runC13(c *mon.Ctx) {
 			c.Sample("filter-tree", map[string]any{"tree": desc, "expected_nil": filterable})
 		}
 	}
+	c.Floor("lax-extension-cases", 1000)
 	c.Floor("filter-expected-nil", 1000)
 	c.Floor("filter-expected-identity", 1000)
 	c.Floor("single-fault-cases", 500)
